@@ -7,7 +7,8 @@
          "genes":  [{"name": str, "loc": LOC}],
          "protos": [{"loc": LOC, "core": LOC, "product": str, "side": bool}],
          "subs":   [{"loc": LOC, "label": str, "side": bool}],
-         "annos":  [{"kind": "pfam"|"asdomain"|"motif"|"prepeptide", "gene": int, "a": int, "b": int, ...}]}
+         "annos":  [{"kind": "pfam"|"asdomain"|"motif"|"prepeptide", "gene": int, "a": int, "b": int, ...}],
+         "misc":   [{"loc": LOC}]}           (genes may carry "core_for": [products], "gene_feature": bool)
     LOC = {"parts": [[s, e], ...], "strand": 1|-1} in Biopython part order.
 """
 
@@ -130,7 +131,7 @@ HEADER = {
 def build_record(spec: dict) -> Any:
     """ the record with genes, annotations, protoclusters and subregions; no candidates/regions yet """
     from antismash.common.secmet.features import (
-        AntismashDomain, CDSMotif, PFAMDomain, Prepeptide, Protocluster, SubRegion)
+        AntismashDomain, CDSMotif, Feature, Gene, PFAMDomain, Prepeptide, Protocluster, SubRegion)
     from antismash.common.secmet.features.protocluster import SideloadedProtocluster
     from antismash.common.secmet.features.subregion import SideloadedSubRegion
     from antismash.common.secmet.locations import FeatureLocation
@@ -151,6 +152,12 @@ def build_record(spec: dict) -> Any:
         for product in gene.get("core_for", []):
             cds.gene_functions.add(GeneFunction.CORE, "verif", "core gene", product)
         record.add_cds_feature(cds)
+        if gene.get("gene_feature"):
+            record.add_gene(Gene(to_loc(gene["loc"]), locus_tag=gene["name"]))
+    for index, misc in enumerate(spec.get("misc", [])):
+        feature = Feature(to_loc(misc["loc"]), feature_type="misc_feature")
+        feature.notes.append(f"misc {index}")
+        record.add_feature(feature)
 
     for index, anno in enumerate(spec.get("annos", [])):
         gene = spec["genes"][anno["gene"]]
